@@ -27,6 +27,8 @@ Example sloppy_phrase_on_example_index :
 Proof. exact ex_phrase_slop. Qed.
 Print Assumptions sloppy_phrase_on_example_index.
 
+(* In the node theorems below CNew describes a child that was not called yet: such a child is only
+   stepped with Next (every searcher initialises its children with Next). *)
 (* ---- searcher_spec (DESIGN.md C07), proved node by node: each composite meets the iterator
    contract of Search/SearchersProofsBase.v (Next returns the least member of its denotation at or
    above the watermark, Advance n the least one at or above n, in strictly increasing order)
@@ -43,11 +45,12 @@ Theorem searcher_spec_conjunction_partial :
   forall (C : Type) (cnext : C -> res (option dmatch * C)) (cadv : C -> Z -> res (option dmatch * C))
          (CInv CFin : C -> (Z -> bool) -> Z -> Prop),
     contract cnext cadv CInv CFin ->
+    forall (CNew : C -> (Z -> bool) -> Prop), new_exact cnext CInv CFin CNew ->
     forall (N : Z) (Ss : list (Z -> bool)) (lf : nat) (st : conj_st C) (lo : Z),
-      conj_inv C CInv CFin N Ss st lo -> (conj_fuel N (length Ss) <= lf)%nat ->
-      (exists r st', conj_next C cnext cadv lf st = Ok (r, st') /\ conj_exact_post C CInv CFin N Ss lo r st') /\
+      conj_inv C CInv CFin CNew N Ss st lo -> (conj_fuel N (length Ss) <= lf)%nat ->
+      (exists r st', conj_next C cnext cadv lf st = Ok (r, st') /\ conj_exact_post C CInv CFin CNew N Ss lo r st') /\
       (forall n, lo <= n ->
-         exists r st', conj_advance C cnext cadv lf st n = Ok (r, st') /\ conj_exact_post C CInv CFin N Ss n r st').
+         exists r st', conj_advance C cnext cadv lf st n = Ok (r, st') /\ conj_exact_post C CInv CFin CNew N Ss n r st').
 Proof. exact conj_contract. Qed.
 Print Assumptions searcher_spec_conjunction_partial.
 
@@ -55,8 +58,9 @@ Theorem searcher_spec_disjunction_slice_partial :
   forall (C : Type) (cnext : C -> res (option dmatch * C)) (cadv : C -> Z -> res (option dmatch * C))
          (CInv CFin : C -> (Z -> bool) -> Z -> Prop),
     contract cnext cadv CInv CFin ->
+    forall (CNew : C -> (Z -> bool) -> Prop), new_exact cnext CInv CFin CNew ->
     forall (N : Z) (Ss : list (Z -> bool)) (dmin : Z) (lf : nat) (st : dsl_st C) (lo : Z),
-      dsl_inv C CInv CFin N Ss dmin st lo -> 0 <= lo -> (Z.to_nat N + 2 <= lf)%nat ->
+      dsl_inv C CInv CFin CNew N Ss dmin st lo -> 0 <= lo -> (Z.to_nat N + 2 <= lf)%nat ->
       (exists r st', dsl_next C cnext lf st = Ok (r, st') /\ dsl_exact_post C CInv CFin N Ss dmin lo r st') /\
       (forall n, lo <= n ->
          exists r st', dsl_advance C cnext cadv lf st n = Ok (r, st') /\ dsl_exact_post C CInv CFin N Ss dmin n r st').
@@ -73,7 +77,7 @@ Theorem searcher_spec_disjunction_heap :
          (CInv CFin : C -> (Z -> bool) -> Z -> Prop),
     contract cnext cadv CInv CFin ->
     forall (CNew : C -> (Z -> bool) -> Prop),
-      (forall c S, CNew c S -> exists r c', cnext c = Ok (r, c') /\ exact_post CInv CFin S 0 r c') ->
+      new_exact cnext CInv CFin CNew ->
     forall (N : Z) (Ss : list (Z -> bool)) (dmin : Z) (cdflt : C) (lf : nat) (st : dhp_st C) (lo : Z),
       dhp_inv C CInv CNew N Ss dmin cdflt st lo -> 0 <= lo -> (Z.to_nat N + 2 <= lf)%nat ->
       (exists r st', dhp_next C cnext lf cdflt st = Ok (r, st') /\ dhp_exact_post C CInv N Ss dmin cdflt lo r st') /\
@@ -92,14 +96,47 @@ Theorem searcher_spec_boolean_next_partial :
   forall (C : Type) (cnext : C -> res (option dmatch * C)) (cadv : C -> Z -> res (option dmatch * C))
          (cmin : C -> Z) (CInv CFin : C -> (Z -> bool) -> Z -> Prop),
     next_exact C cnext CInv CFin -> adv_exact C cadv CInv CFin ->
+    forall (CNew : C -> (Z -> bool) -> Prop), new_exact cnext CInv CFin CNew ->
     (forall c r c', cnext c = Ok (r, c') -> cmin c' = cmin c) ->
     (forall c n r c', cadv c n = Ok (r, c') -> cmin c' = cmin c) ->
     forall (N : Z) (Sm Ss Sn : option (Z -> bool)) (smin : Z) (lf : nat) (st : bool_st C) (lo : Z),
-      bool_inv C cmin CInv CFin N Sm Ss Sn smin st lo -> 0 <= lo -> (Z.to_nat N + 2 <= lf)%nat ->
+      bool_inv C cmin CInv CFin CNew N Sm Ss Sn smin st lo -> 0 <= lo -> (Z.to_nat N + 2 <= lf)%nat ->
       exists r st', bool_next C cnext cadv cmin lf st = Ok (r, st') /\
-                    bool_exact_post C cmin CInv CFin N Sm Ss Sn smin lo r st'.
+                    bool_exact_post C cmin CInv CFin CNew N Sm Ss Sn smin lo r st'.
 Proof. exact bool_next_spec. Qed.
 Print Assumptions searcher_spec_boolean_next_partial.
+
+(* the boolean searcher, Next AND Advance, for every shape and children that are exact for Next,
+   exact for Advance at or above their watermark and that report the end again when advanced at
+   or above the point where they reported it.  bool_ret is the state after a match was returned
+   (BooleanSearcher.Advance as a FIRST call is not covered: it would skip the first match of the
+   should child — every caller in search/searcher starts its children with Next).  The should
+   child of a boolean with must clauses and should.Min() = 0 is also advanced to targets below
+   its cursor (advanceIfTrailing); it only adds to the score, so all that is used of it is CAny:
+   it answers every Advance.  Once the end was reported (done) it is reported for every call. *)
+From Bluge Require Search.SearchersProofsBoolAdv.
+Theorem searcher_spec_boolean :
+  forall (C : Type) (cnext : C -> res (option dmatch * C)) (cadv : C -> Z -> res (option dmatch * C))
+         (cmin : C -> Z) (CInv CFin : C -> (Z -> bool) -> Z -> Prop),
+    next_exact C cnext CInv CFin -> adv_exact C cadv CInv CFin ->
+    forall (CNew : C -> (Z -> bool) -> Prop), new_exact cnext CInv CFin CNew ->
+    fin_adv C cadv CFin ->
+    forall (CAny : C -> Prop),
+    (forall c n, CAny c -> 0 <= n -> exists r c', cadv c n = Ok (r, c') /\ CAny c') ->
+    (forall c S lo, CInv c S lo -> CAny c) -> (forall c S lo, CFin c S lo -> CAny c) ->
+    (forall c r c', cnext c = Ok (r, c') -> cmin c' = cmin c) ->
+    (forall c n r c', cadv c n = Ok (r, c') -> cmin c' = cmin c) ->
+    forall (N : Z) (Sm Ss Sn : option (Z -> bool)) (smin : Z) (lf : nat), (Z.to_nat N + 2 <= lf)%nat ->
+      (forall st lo, SearchersProofsBoolAdv.bool_inv C cmin CInv CFin CNew CAny N Sm Ss Sn smin st lo -> 0 <= lo ->
+         exists r st', bool_next C cnext cadv cmin lf st = Ok (r, st') /\
+                       SearchersProofsBoolAdv.bool_exact_post C cmin CInv CFin CAny N Sm Ss Sn smin lo r st') /\
+      (forall st lo n, SearchersProofsBoolAdv.bool_ret C cmin CInv CFin CAny N Sm Ss Sn smin st lo -> 0 <= lo -> lo <= n ->
+         exists r st', bool_advance C cnext cadv cmin lf st n = Ok (r, st') /\
+                       SearchersProofsBoolAdv.bool_exact_post C cmin CInv CFin CAny N Sm Ss Sn smin n r st') /\
+      (forall st n, b_done st = true ->
+         bool_next C cnext cadv cmin lf st = Ok (None, st) /\ bool_advance C cnext cadv cmin lf st n = Ok (None, st)).
+Proof. exact SearchersProofsBoolAdv.bool_contract. Qed.
+Print Assumptions searcher_spec_boolean.
 
 (* optimised_equal (partial: at the level of the per-segment document sets; the composition
    with the term searcher over the rewritten lists is covered by the correspondence only).
